@@ -150,6 +150,42 @@ Section Spec.
     fold (s_get (s_rem s k) k'). rewrite s_get_s_rem. unfold frem. now rewrite E.
   Qed.
 
+  Lemma s_rem_length : forall s k, NoDup (keys s) ->
+      length (s_rem s k) + (match s_get s k with Some _ => 1 | None => 0 end) = length s.
+  Proof.
+    induction s as [|[a w] s IH]; simpl; intros k ND; auto.
+    inversion ND as [|? ? Hn ND']; subst. unfold s_get in *; simpl. destruct (eqb a k) eqn:E; simpl.
+    - apply eqb_spec in E; subst.
+      assert (E0 : b_get K V eqb s k = None) by (now apply s_get_None).
+      specialize (IH k ND'). rewrite E0 in IH. lia.
+    - specialize (IH k ND'). lia.
+  Qed.
+
+  Lemma represents_fupd_length : forall l l' f k v,
+      represents l f -> represents l' (fupd f k v) ->
+      length l' = match f k with Some _ => length l | None => S (length l) end.
+  Proof.
+    intros l l' f k v R R'. pose proof R as [ND _].
+    assert (Rp : represents (s_put l k v) (fupd f k v)).
+    { eapply represents_ext; [apply represents_get; now apply NoDup_keys_s_put|].
+      intros k'. rewrite s_get_s_put. unfold fupd. now rewrite <- (represents_fun l f k' R). }
+    rewrite (represents_length _ _ _ R' Rp). simpl.
+    pose proof (s_rem_length l k ND) as Hl. rewrite <- (represents_fun l f k R) in Hl.
+    destruct (f k); lia.
+  Qed.
+
+  Lemma represents_frem_length : forall l l' f k,
+      represents l f -> represents l' (frem f k) ->
+      length l' + (match f k with Some _ => 1 | None => 0 end) = length l.
+  Proof.
+    intros l l' f k R R'. pose proof R as [ND _].
+    assert (Rp : represents (s_rem l k) (frem f k)).
+    { eapply represents_ext; [apply represents_get; now apply NoDup_keys_s_rem|].
+      intros k'. rewrite s_get_s_rem. unfold frem. now rewrite <- (represents_fun l f k' R). }
+    rewrite (represents_length _ _ _ R' Rp).
+    pose proof (s_rem_length l k ND) as Hl. now rewrite <- (represents_fun l f k R) in Hl.
+  Qed.
+
   (** [Equal] on abstract maps, with the user's [eqVal] *)
   Definition chk (f : K -> option V) (kv : K * V) : bool :=
     match f (fst kv) with Some v' => eqv (snd kv) v' | None => false end.
